@@ -34,12 +34,21 @@ KEYS = ["k0", "k1", "k2", "k3", "k4", "interface", "path"]
 FORMS = [
     "s-unix-pos", "s-unix-pos-kw", "s-unix-kw", "s-tcp-iface", "s-tcp-iface-first",
     "c-unix-pos", "c-unix-pos-kw", "c-unix-kw", "c-tcp-host-pos", "c-tcp-host-kw", "c-tcp-bind",
+    # every documented mix of positional and keyword arguments of the built-in parsers, which shuffle
+    # their arguments themselves (_parseClientTCP, _parseClientUNIX, _parseTCP, _parseUNIX)
+    "c-tcp-hostpos-portkw", "c-tcp-portkw-hostpos", "c-tcp-hostkw-portpos", "c-tcp-portpos-hostkw", "c-tcp-portkw-hostkw",
+    "c-tcp-hostkw-portpos-kw", "c-tcp-bind-hostkw-portpos", "c-unix-kw-pos", "c-unix-kw-pathkw",
+    "s-tcp-ifacekw-portpos", "s-unix-kw-pos",
     # the same server forms behind the 'haproxy:' wrapper prefix (description is un-parsed and parsed again)
     "h-s-unix-pos", "h-s-unix-pos-kw", "h-s-unix-kw", "h-s-tcp-iface", "h-s-tcp-iface-first",
 ]
 # forms in which the text is a positional argument
 POSITIONAL_FORMS = {"s-unix-pos", "s-unix-pos-kw", "c-unix-pos", "c-unix-pos-kw", "c-tcp-host-pos",
-                    "h-s-unix-pos", "h-s-unix-pos-kw"}
+                    "h-s-unix-pos", "h-s-unix-pos-kw", "c-tcp-hostpos-portkw", "c-tcp-portkw-hostpos", "c-unix-kw-pos",
+                    "s-unix-kw-pos"}
+# forms in which the text is a keyword argument while another argument is positional
+MIXED_FORMS = {"c-tcp-hostkw-portpos", "c-tcp-portpos-hostkw", "c-tcp-hostkw-portpos-kw", "c-tcp-bind-hostkw-portpos",
+               "s-tcp-ifacekw-portpos", "c-tcp-hostpos-portkw", "c-tcp-portkw-hostpos", "c-unix-kw-pos", "s-unix-kw-pos"}
 
 
 def classes(text):
@@ -210,6 +219,17 @@ def _form(form, qt):
         "c-tcp-host-pos": (C(f"tcp:{qt}:80"), dict(_host=T, _port=80, _bindAddress=None)),
         "c-tcp-host-kw": (C(f"tcp:host={qt}:port=80:timeout=4"), dict(_host=T, _port=80, _timeout=4)),
         "c-tcp-bind": (C(f"tcp:example.org:80:bindAddress={qt}"), dict(_host="example.org", _port=80, _bindAddress=T)),
+        "c-tcp-hostpos-portkw": (C(f"tcp:{qt}:port=80"), dict(_host=T, _port=80, _timeout=30)),
+        "c-tcp-portkw-hostpos": (C(f"tcp:port=80:{qt}"), dict(_host=T, _port=80, _timeout=30)),
+        "c-tcp-hostkw-portpos": (C(f"tcp:host={qt}:80"), dict(_host=T, _port=80, _timeout=30)),
+        "c-tcp-portpos-hostkw": (C(f"tcp:80:host={qt}"), dict(_host=T, _port=80, _timeout=30)),
+        "c-tcp-portkw-hostkw": (C(f"tcp:port=80:host={qt}"), dict(_host=T, _port=80, _timeout=30)),
+        "c-tcp-hostkw-portpos-kw": (C(f"tcp:host={qt}:80:timeout=3"), dict(_host=T, _port=80, _timeout=3)),
+        "c-tcp-bind-hostkw-portpos": (C(f"tcp:host=example.org:80:bindAddress={qt}"), dict(_host="example.org", _port=80, _bindAddress=T)),
+        "c-unix-kw-pos": (C(f"unix:timeout=3:{qt}"), dict(_path=T, _timeout=3, _checkPID=0)),
+        "c-unix-kw-pathkw": (C(f"unix:timeout=3:path={qt}:lockfile=1"), dict(_path=T, _timeout=3, _checkPID=True)),
+        "s-tcp-ifacekw-portpos": (S(f"tcp:interface={qt}:8080"), dict(_port=8080, _interface=T, _backlog=50)),
+        "s-unix-kw-pos": (S(f"unix:mode=660:{qt}"), dict(_address=T, _mode=0o660, _backlog=50, _wantPID=True)),
     }
     return table[form]
 
@@ -256,6 +276,10 @@ def run_form(ctx, case):
     if cl:
         ctx.nontrivial(("f", form, text))
     ctx.count("form: " + form)
+    if form in MIXED_FORMS:
+        ctx.count("form: mixed positional/keyword built-in form" + (", empty text" if text == "" else ""))
+    if text == "":
+        ctx.nontrivial(("f", form, text))
     if form.startswith("h-") and "nonascii" in cl:
         ctx.count("form: haproxy: form with non-ASCII text")
     for c in cl:
